@@ -32,6 +32,7 @@ TU = "magpylib/_src/display/traces_utility.py"
 # `count` times); kind "revert": reverse-apply a repository commit (regression of a repair).
 MUTANTS = {
     "C08": [
+        {"name": "revert_fix_style_materialisation", "kind": "revert", "commit": "ffe9f8a"},
         {"name": "revert_fix_finally", "kind": "revert", "commit": "f4e268a"},
         {"name": "reset_forgets_orientation", "kind": "sub", "file": FW,
          "old": "            obj._position = pos\n            obj._orientation = ori\n",
@@ -53,6 +54,8 @@ MUTANTS = {
                 "        if inp.ndim == 3:\n            inp += 0.0\n            inp[0, 0, 0] = inp[0, 0, 0] + 1e-9\n"},
     ],
     "C09": [
+        {"name": "revert_fix_rotate_order", "kind": "revert", "commit": "93dce91"},
+        {"name": "revert_fix_empty_paths", "kind": "revert", "commit": "d0f5811"},
         {"name": "pad_behind_off_by_one", "kind": "sub", "file": BT,
          "old": "        pad_behind = start + lenip - (lenop + pad_before)\n",
          "new": "        pad_behind = start + lenip - (lenop + pad_before) + (1 if pad_before else 0)\n"},
@@ -85,6 +88,7 @@ MUTANTS = {
                 "else pad_slice_path(oriQ, self._position)\n"},
     ],
     "C10": [
+        {"name": "revert_fix_format_once", "kind": "revert", "commit": "f035d3f"},
         {"name": "revert_fix_move_alias", "kind": "revert", "commit": "0dc79df"},
         {"name": "children_rotate_about_own_centre", "kind": "sub", "file": BT,
          "old": "            child._rotate(rotation, anchor=anchor, start=start, parent_path=ppth)\n",
@@ -111,6 +115,7 @@ MUTANTS = {
                 "    ppath, opath, start, end, padded = path_padding(inpath, start, target_object)\n"},
     ],
     "C11": [
+        {"name": "revert_fix_getter_copies", "kind": "revert", "commit": "2ae289d"},
         {"name": "revert_fix_add_atomic", "kind": "revert", "commit": "cdaacac"},
         {"name": "revert_fix_remove", "kind": "revert", "commit": "2b80a0e"},
         {"name": "revert_fix_copy_finally", "kind": "revert", "commit": "395226b"},
@@ -131,6 +136,8 @@ MUTANTS = {
          "new": "            if obj._parent is not None and not isinstance(obj, Collection):\n                obj._parent.remove(obj)\n            obj._parent = self\n"},
     ],
     "C18": [
+        {"name": "revert_fix_empty_label", "kind": "revert", "commit": "0197573"},
+        {"name": "revert_fix_parent_last", "kind": "revert", "commit": "3c55826"},
         {"name": "revert_fix_copy_finally", "kind": "revert", "commit": "395226b"},
         {"name": "shallow_copy_for_leaves", "kind": "sub", "file": BG,
          "old": "        else:\n            obj_copy = deepcopy(self)\n",
@@ -157,6 +164,11 @@ MUTANTS = {
                 "                t_new._kwargs = t_old._kwargs\n"},
     ],
     "C20": [
+        {"name": "revert_fix_color_cache", "kind": "revert", "commit": "8f4182c"},
+        {"name": "revert_fix_dict_aliasing", "kind": "revert", "commit": "1507b76"},
+        {"name": "revert_fix_dict_assignment_merge", "kind": "revert", "commit": "0497686"},
+        {"name": "revert_fix_style_reset", "kind": "revert", "commit": "f3dd4e6"},
+        {"name": "revert_fix_label_key", "kind": "revert", "commit": "282ec0a"},
         {"name": "revert_fix_alias", "kind": "revert", "commit": "0b26a89"},
         {"name": "revert_fix_reset", "kind": "revert", "commit": "b397bbb"},
         {"name": "revert_fix_dipole_ctor", "kind": "revert", "commit": "15cf0ed"},
